@@ -88,3 +88,12 @@ pub broadcast proof fn lemma_upto_full(s: Seq<Atom>, env: Env)
             #[trigger] all_false_upto(s, s.len() as int, env) == all_false(s, env) {}
 pub broadcast proof fn lemma_dnf_upto_full(d: Seq<Conjunction>, env: Env)
     ensures #[trigger] dnf_upto(d, d.len() as int, env) == dnf_eval(d, env) {}
+
+// push followed by pop restores the path (stated explicitly: leaving it to extensionality search made
+// the proof of bdd_to_dnf_recursive depend on unrelated context)
+pub broadcast proof fn lemma_push_then_pop<A>(s: Seq<A>, a: A)
+    ensures #[trigger] s.push(a).subrange(0, s.len() as int) == s, s.push(a).drop_last() == s
+{
+    assert(s.push(a).subrange(0, s.len() as int) =~= s);
+    assert(s.push(a).drop_last() =~= s);
+}
